@@ -10,8 +10,8 @@ FUNCTOR_TMP = [dict(lit='BitReversalAlgo()(', to='vx_functor(', count=1, why='T(
 stage = [
     dict(kind='shadow', path='cds/algo/bit_reversal.h', contract_points=[
         dict(name='swar64', anchor=r'/// 64bit\s*uint64_t operator\(\)\( uint64_t x \) const', matches=3, occurrence=0),
-        dict(name='lookup64', anchor=r'/// 64bit\s*uint64_t operator\(\)\( uint64_t x \) const(?=\s*\{\s*return \( static_cast<uint64_t>\( operator\(\)\( static_cast<uint32_t>\( x \)\)\) << 32 \) \|\s*static_cast)', matches=1),
-        dict(name='muldiv64', anchor=r'/// 64bit\s*uint64_t operator\(\)\( uint64_t x \) const(?=\s*\{\s*#)', matches=1),
+        dict(name='lookup64', anchor=r'/// 64bit\s*uint64_t operator\(\)\( uint64_t x \) const', matches=3, occurrence=1),   # the three operators are told apart by their order in the file (swar, lookup, muldiv), not by their bodies
+        dict(name='muldiv64', anchor=r'/// 64bit\s*uint64_t operator\(\)\( uint64_t x \) const', matches=3, occurrence=2),
     ]),
     dict(kind='fragment', path='cds/algo/bitop.h', name='BitOps4', anchor=r'template <> struct BitOps<4>', body_only=True),
     dict(kind='fragment', path='cds/algo/bitop.h', name='BitOps8', anchor=r'template <> struct BitOps<8>', body_only=True),
